@@ -60,6 +60,25 @@ Fixpoint sched_ok (c : config) (s : state) (evs : list event) : Prop :=
   | e :: t => (e = EvPgBefore 4 -> window_ok c s) /\ match step c s e with Ok s' => sched_ok c s' t | Err _ => True end
   end.
 
+(* the acceptor evaluates [sched_holds] before every event of every real run and rejects the log when it is false:
+   the hypothesis of the theorems is checked, not assumed, on the runs the correspondence is established on *)
+Lemma sched_holds_ok : forall c s e, sched_holds c s e = true -> (e = EvPgBefore 4 -> window_ok c s).
+Proof. intros c s e H ->. unfold sched_holds in H. unfold window_ok, win_count. apply Nat.ltb_lt. exact H. Qed.
+
+Fixpoint sched_holds_run (c : config) (s : state) (evs : list event) : bool :=
+  match evs with
+  | [] => true
+  | e :: t => sched_holds c s e && match step c s e with Ok s' => sched_holds_run c s' t | Err _ => true end
+  end.
+
+Lemma sched_holds_run_ok : forall c evs s, sched_holds_run c s evs = true -> sched_ok c s evs.
+Proof.
+  induction evs as [|e t IH]; intros s H; simpl in *; auto.
+  apply andb_true_iff in H. destruct H as [H1 H2]. split.
+  - apply sched_holds_ok. exact H1.
+  - destruct (step c s e); auto.
+Qed.
+
 Lemma inv_run : forall c evs s s', fixed c -> Inv c s -> sched_ok c s evs -> run c s evs = Ok s' -> Inv c s'.
 Proof.
   intros c evs s s' Hfx. revert s s'. induction evs as [|e t IH]; intros s s' HI HS H; simpl in H.
